@@ -289,6 +289,35 @@ def rule_j5(repo, col):
     col.floor("J5.copy_cases", n, 6)
 
 
+def rule_j6(repo, col):
+    """LogicFormula.enumerate_branches: the set of ancestors is local to the path (extended by value for each recursive call), never a shared object that sibling branches mutate -
+    otherwise a sub-goal reached twice through different parents is taken for a cycle and its condition disappears from the branch"""
+    f = repo.func("problog.formula", "LogicFormula.enumerate_branches")
+    m = f.module
+    cand = [p_ for p_ in f.params[2:]]
+    rec = [c for c in ast.walk(f.node) if isinstance(c, ast.Call) and isinstance(c.func, ast.Attribute) and c.func.attr == "enumerate_branches"]
+    if not rec or not cand:
+        raise AnalysisError("enumerate_branches: recursion / ancestor parameter not found")
+    anc = cand[0]
+    muts = [c for c in ast.walk(f.node) if isinstance(c, ast.Call) and isinstance(c.func, ast.Attribute) and isinstance(c.func.value, ast.Name) and c.func.value.id == anc
+            and c.func.attr in ("add", "append", "update", "extend", "discard", "remove", "pop")]
+    passed = []
+    for c in rec:
+        for k in c.keywords:
+            if k.arg == anc:
+                passed.append(k.value)
+        if len(c.args) >= 2:
+            passed.append(c.args[1])
+    if len(passed) != len(rec):
+        raise AnalysisError("enumerate_branches: ancestor argument of a recursive call not found")
+    by_value = all(isinstance(v, ast.BinOp) and isinstance(v.op, (ast.Add, ast.BitOr)) and anc in norm(v) for v in passed)
+    col.decide("J6", m, muts[0] if muts else rec[0], by_value and not muts, "the ancestors of a branch are extended by value for every recursive call",
+               "enumerate_branches %s: the ancestor collection must be path-local (anc + (index,)) - a shared, mutated collection marks every node visited anywhere before as an "
+               "ancestor, so a rule-defined sub-goal used twice in one proof is cut as a cycle and the branch loses its condition (findall list probabilities change)"
+               % ("mutates `%s` in place (%s)" % (anc, norm(muts[0])) if muts else "passes %s to the recursive call" % norm(passed[0])),
+               construct="enumerate_branches: shared ancestor collection", function="LogicFormula.enumerate_branches")
+
+
 def run(repo, col):
     col.rule("J1", "partition table of _select_sublist (element kind x choice bit)")
     col.rule("J2", "every bit pattern is enumerated exactly once")
@@ -298,3 +327,5 @@ def run(repo, col):
     rule_j4(repo, col)
     col.rule("J5", "copy_node keeps the sign of the copied literal")
     rule_j5(repo, col)
+    col.rule("J6", "enumerate_branches: path-local ancestors")
+    rule_j6(repo, col)
